@@ -3,6 +3,7 @@ package queue
 import (
 	"os"
 	"path/filepath"
+	"strings"
 
 	"github.com/emersion/go-message/textproto"
 	"github.com/foxcpp/maddy/framework/buffer"
@@ -42,7 +43,18 @@ func harness_C18_chain() {
 	q1.tryDelivery(qd.meta, hdr, qd.body)
 
 	// the report, if one was generated, now sits in the second queue
-	meta2, hdr2, body2, err := q2.openMessage("dsn0001")
+	id2 := "dsn0001" // the model's GenerateMsgID; natively the identifier is random: look it up
+	if !verifSymbolic() {
+		id2 = ""
+		if ents, err := os.ReadDir(dir2); err == nil {
+			for _, e := range ents {
+				if strings.HasSuffix(e.Name(), ".meta") {
+					id2 = strings.TrimSuffix(e.Name(), ".meta")
+				}
+			}
+		}
+	}
+	meta2, hdr2, body2, err := q2.openMessage(id2)
 	if err != nil {
 		verifCover("C18.chain-no-report")
 		return
